@@ -145,7 +145,22 @@ class Sym:
         return self.like(np.expand_dims(self.arr, d), view=True)
 
     def to(self, *a, **k):
-        return self
+        # .to(dtype) / .to(other_tensor) / .to(device): only the dtype provenance matters here
+        tag = None
+        for x in list(a) + [k.get('dtype'), k.get('other')]:
+            if x is None:
+                continue
+            if hasattr(x, 'tag') and type(x).__name__ == 'DType':
+                tag = x.tag
+            elif hasattr(x, 'dims') and hasattr(x, 'dtype'):
+                tag = x.dtype
+        if tag is None or tag == self.dtype:
+            return self
+        r = Sym(self.arr, self.lib, tag, storage=None, device=self.device)
+        return r
+
+    def type_as(self, other):
+        return self.to(other)
 
     def astype(self, *a, **k):
         return self.like(self.arr.copy())
